@@ -40,6 +40,12 @@ type printer struct {
 	lastComment SourceLoc
 }
 
+// hasComments returns true if there are any comments attached to the node,
+// including ones separated from it by an empty line.
+func (node *AstNode) hasComments() bool {
+	return len(node.Comments) > 0 || len(node.scopeComments) > 0
+}
+
 func (self *printer) printComments(node *AstNode, prefix string) {
 	if self.lastComment.File != nil && node.Loc.File != nil &&
 		self.lastComment.File.FullPath != node.Loc.File.FullPath {
